@@ -283,3 +283,29 @@ pub open spec fn spec_plus_coerced(a: SVal, b: SVal) -> (SVal, SVal) {
         _ => spec_arith_coerced(a, b),
     }
 }
+
+// ---------------------------------------------------------------------------------------------------
+// helpers for `compare`
+/// `inner!(e, if Val::Number)` — the macro panics on any other variant, so that is a precondition
+pub fn inner_number(v: &Val) -> (r: &f64)
+    requires *v is Number
+    ensures *r == v->Number_0
+{ match v { Val::Number(n) => n, _ => unreached() } }
+pub fn inner_string(v: &Val) -> (r: &Rc<String>)
+    requires *v is String
+    ensures *r == v->String_0
+{ match v { Val::String(s) => s, _ => unreached() } }
+
+pub open spec fn cmp_step(y: Option<Result<Ordering, ValError>>, a: Val, b: Val, s: Val, o: Val) -> bool {
+    if kind(a) != kind(b) { y == Some(Err::<Ordering, ValError>(ValError::InvalidComparison(s, o))) }
+    else {
+        match a {
+            Val::Undefined | Val::Null => y == Some(Ok::<Ordering, ValError>(Ordering::Equal)),
+            Val::Number(n) => y == (match sp_fcmp(n, b->Number_0) { Some(x) => Some(Ok::<Ordering, ValError>(x)), None => None }),
+            Val::String(x) => y == Some(Ok::<Ordering, ValError>(sp_str_cmp(x@, b->String_0@))),
+            Val::Boolean(_) | Val::Array(_) => y == Some(Err::<Ordering, ValError>(ValError::InvalidComparison(s, o))),
+        }
+    }
+}
+pub assume_specification<T, E>[Option::<Result<T, E>>::transpose](o: Option<Result<T, E>>) -> (r: Result<Option<T>, E>)
+    ensures r == (match o { None => Ok::<Option<T>, E>(None), Some(Ok(x)) => Ok::<Option<T>, E>(Some(x)), Some(Err(e)) => Err::<Option<T>, E>(e) });
